@@ -335,21 +335,44 @@ theorem sequenceOpt_parse_bodies (w : Nat) (hw : 1 ≤ w) (es : List (List Char 
     rw [parseProtein_body w hw e hn hs, ih (fun x hx => h x (by simp [hx]))]
     rfl
 
-/-- **round trip**: reading the rendered text gives back the entries -/
-theorem parseFasta_renderFasta (w : Nat) (hw : 1 ≤ w) (es : List (List Char × List Char))
-    (hne : es ≠ []) (h : ∀ e ∈ es, NameOK e.1 ∧ SeqOK e.2) :
+/-- a text that begins with `>`: putting a line break in front and dropping the piece before the
+first separator is the same as dropping the `>` -/
+theorem splitRecords_nl_headed (g : List Char) (h : g.head? = some '>') :
+    (splitRecords ('\n' :: g)).drop 1 = splitRecords (g.drop 1) := by
+  cases g with
+  | nil => simp at h
+  | cons c b =>
+    simp only [List.head?_cons, Option.some.injEq] at h
+    subst h
+    rw [splitRecords_cons_cons, if_pos ⟨rfl, rfl⟩]
+    rfl
+
+/-- **round trip**: reading the rendered text gives back the entries (also none at all: the empty
+file denotes no protein) -/
+theorem parseFasta_renderFasta_any (w : Nat) (hw : 1 ≤ w) (es : List (List Char × List Char))
+    (h : ∀ e ∈ es, NameOK e.1 ∧ SeqOK e.2) :
     parseFasta [renderFasta w es] = some es := by
-  unfold parseFasta parseFastaFiles
-  simp only [List.map_cons, List.map_nil, joinWith]
-  rw [univNL_id _ (renderFasta_no_cr w hw es h), renderFasta_eq w es hne]
-  simp only [List.drop_succ_cons, List.drop_zero]
-  rw [splitRecords_join]
-  · exact sequenceOpt_parse_bodies w hw es h
-  · intro b hb
-    obtain ⟨e, he, rfl⟩ := List.mem_map.mp hb
-    obtain ⟨hn, hs⟩ := h e he
-    exact body_ok w hw e hn hs
-  · simpa using hne
+  cases es with
+  | nil => rfl
+  | cons e0 rest =>
+    have hne : e0 :: rest ≠ [] := by simp
+    unfold parseFasta parseFastaFiles
+    simp only [List.map_cons, List.map_nil, joinWith]
+    rw [univNL_id _ (renderFasta_no_cr w hw _ h), renderFasta_eq w _ hne]
+    rw [splitRecords_nl_headed _ rfl]
+    simp only [List.drop_succ_cons, List.drop_zero]
+    rw [splitRecords_join]
+    · exact sequenceOpt_parse_bodies w hw _ h
+    · intro b hb
+      obtain ⟨e, he, rfl⟩ := List.mem_map.mp hb
+      obtain ⟨hn, hs⟩ := h e he
+      exact body_ok w hw e hn hs
+    · simpa using hne
+
+theorem parseFasta_renderFasta (w : Nat) (hw : 1 ≤ w) (es : List (List Char × List Char))
+    (_hne : es ≠ []) (h : ∀ e ∈ es, NameOK e.1 ∧ SeqOK e.2) :
+    parseFasta [renderFasta w es] = some es :=
+  parseFasta_renderFasta_any w hw es h
 
 /-! ### what the parser returns is clean -/
 
@@ -445,15 +468,14 @@ theorem sequenceOpt_ne_nil {l : List (Option β)} {r : List β} (h : sequenceOpt
   subst hr
   exact hl (List.eq_nil_of_length_eq_zero this.symm)
 
+/-- (an input without any record — only empty files, blank lines — parses to no protein at all,
+so nothing is said about `ts ≠ []`) -/
 theorem parseFasta_clean {files : List (List Char)} {ts : List (List Char × List Char)}
-    (h : parseFasta files = some ts) : ts ≠ [] ∧ ∀ t ∈ ts, NameOK t.1 ∧ BreakFree t.2 := by
+    (h : parseFasta files = some ts) : ∀ t ∈ ts, NameOK t.1 ∧ BreakFree t.2 := by
   unfold parseFasta at h
-  constructor
-  · apply sequenceOpt_ne_nil h
-    simpa [parseFastaFiles] using splitRecords_ne_nil _
-  · intro t ht
-    have := sequenceOpt_mem h t ht
-    obtain ⟨raw, _, hraw⟩ := List.mem_map.mp this
-    exact parseEntry_clean (splitLines_breakFree raw) hraw
+  intro t ht
+  have := sequenceOpt_mem h t ht
+  obtain ⟨raw, _, hraw⟩ := List.mem_map.mp this
+  exact parseEntry_clean (splitLines_breakFree raw) hraw
 
 end Mk.Decoys
